@@ -44,6 +44,7 @@ class Explorer:
         self.fresh_mode = FRESH_QFBV
         self.fallbacks = 0
         self.worklist = []
+        self.no_alternatives = False
         self.decisions = []
         self.pos = 0
         self.pc = []
@@ -189,6 +190,18 @@ class Explorer:
             return k
         mv = self.model_eval_bool(cond)
         ncond = z3.Not(cond)
+        if self.no_alternatives:
+            # decoy run: follow the current model (or any feasible side), do not queue the other side
+            if mv is None:
+                r1 = self.check(cond)
+                mv = (r1 == z3.sat)
+                if not mv:
+                    self.model = None
+            self.decisions = self.decisions[:self.pos] + [('b', mv)]
+            self.pos += 1
+            self._note_decision()
+            self.add(cond if mv else ncond)
+            return mv
         if mv is True:
             ct = True
             saved = self.model
@@ -253,11 +266,12 @@ class Explorer:
             raise PathAbort('infeasible')
         v = m.eval(e, model_completion=True).as_signed_long()
         c = e == z3.BitVecVal(v, w)
-        saved = self.model
-        r = self.check(z3.Not(c))
-        self.model = saved
-        if r != z3.unsat:
-            self.worklist.append(self.decisions[:self.pos] + [('x', excl + [v])])
+        if not self.no_alternatives:
+            saved = self.model
+            r = self.check(z3.Not(c))
+            self.model = saved
+            if r != z3.unsat:
+                self.worklist.append(self.decisions[:self.pos] + [('x', excl + [v])])
         self.decisions = self.decisions[:self.pos] + [('v', v)]
         self.pos += 1
         self._note_decision()
